@@ -22,6 +22,14 @@
 (*   bankMod : [denom -> amount]             coins held by the module acct *)
 (*   bank    : [acct -> [denom -> amount]]   liquid bank balance of accts  *)
 (*   enabled : BOOLEAN                       module parameter              *)
+(*                                                                         *)
+(* Environment: the DAO module account is an ordinary bank account as far  *)
+(* as the rest of the chain is concerned, and "the coins held by the DAO   *)
+(* module account" of the property are read from x/bank.  Messages of      *)
+(* other modules that move coins (bank MsgSend, MsgMultiSend) are therefore*)
+(* part of the scenario space: they are interleaved with the DAO messages, *)
+(* their recipients range over the accounts and the DAO module account     *)
+(* itself (DaoAcct), and P demands that none of them changes the ledger.   *)
 (***************************************************************************)
 EXTENDS Integers, Sequences, FiniteSets, FiniteSetsExt, TLC, Json, BigNum
 
@@ -33,9 +41,15 @@ CONSTANTS
     Ratios,      \* ratios <<num, den>> with 0 < num <= den
     InitBank,    \* initial bank balance of every account per denom
     MaxLen,      \* bound on the length of a behaviour
-    Defects      \* subset of {"dao_self_transfer"}
+    Defects,     \* subset of {"dao_self_transfer", "dao_not_blocked"}
+    Foreign,     \* messages of other modules interleaved by Next: subset of {"bank_send", "bank_multisend"}
+    BankAmts     \* amounts (of one denomination at a time) the interleaved bank messages carry
 
 AllDenoms == Denoms \cup BadDenoms
+
+\* the name under which the DAO module account appears as the recipient of a foreign message
+DaoAcct == "dao"
+ForeignEvs == {"bank_send", "bank_multisend"}
 
 ---------------------------------------------------------------------------
 (* Generic helpers over a ledger state s (domains are taken from s itself, *)
@@ -91,10 +105,18 @@ TransferPost(s, o, n, amt) ==
 
 Covered(s, o, amt) == \A d \in DenomsOf(s) : BigLE(amt[d], s.share[o][d])
 
-\* ratio r = <<num, den>>: the stated amount is r x balance; an integral implementation
-\* may only choose between the two neighbouring integers
+\* ratio r = <<num, den>>: the stated amount is r x balance.  Balances are whole base units, so
+\* "exactly the stated amount" is read as: the signer never parts with MORE than r x balance
+\* (amt * den <= balance * num - what the signature covers is an upper bound), and with less than
+\* one base unit short of it (amt >= floor).  Together: the whole part of r x balance.
 RatioFloor(b, r) == BigQuo(BigMul(b, r[1]), r[2])
 RatioCeil(b, r)  == BigQuo(BigAdd(BigMul(b, r[1]), BigSub(r[2], "1")), r[2])
+RatioNotMore(s, o, r, amt) ==
+    \A d \in DenomsOf(s) : BigLE(BigMul(amt[d], r[2]), BigMul(s.share[o][d], r[1]))
+RatioNotShort(s, o, r, amt) ==
+    \A d \in DenomsOf(s) : BigLE(RatioFloor(s.share[o][d], r), amt[d])
+RatioStated(s, o, r, amt) == RatioNotMore(s, o, r, amt) /\ RatioNotShort(s, o, r, amt)
+\* (classification only) within one unit of the stated amount on either side
 RatioBand(s, o, r, amt) ==
     \A d \in DenomsOf(s) : /\ BigLE(RatioFloor(s.share[o][d], r), amt[d])
                            /\ BigLE(amt[d], RatioCeil(s.share[o][d], r))
@@ -102,6 +124,9 @@ RatioBand(s, o, r, amt) ==
 \* what a successful message of each kind must have done (P)
 \* e: [ev, args, ok];  s: state before;  t: state after
 MovedFromOwner(s, t, o) == [d \in DenomsOf(s) |-> BigSub(s.share[o][d], t.share[o][d])]
+
+\* the DAO's books: everything in the state except the accounts' liquid balances
+Ledger(s) == [share |-> s.share, total |-> s.total, holders |-> s.holders, bankMod |-> s.bankMod, enabled |-> s.enabled]
 
 StepOK(e, s, t) ==
     IF ~e.ok THEN t = s
@@ -115,7 +140,7 @@ StepOK(e, s, t) ==
            [] e.ev = "transfer_ratio" ->
                  IF e.args.owner = e.args.newOwner THEN t = s
                  ELSE LET amt == MovedFromOwner(s, t, e.args.owner) IN
-                      /\ RatioBand(s, e.args.owner, e.args.ratio, amt)
+                      /\ RatioStated(s, e.args.owner, e.args.ratio, amt)
                       /\ t = TransferPost(s, e.args.owner, e.args.newOwner, amt)
            [] e.ev = "set_enabled" ->
                  t = [s EXCEPT !.enabled = e.args.enabled]
@@ -128,12 +153,28 @@ StepOK(e, s, t) ==
                  LET amt == [d \in DenomsOf(s) |-> IF d = e.args.denom THEN BigMul(e.args.amt, BigOfInt(e.args.times)) ELSE "0"] IN
                  /\ Covered(s, e.args.owner, amt)
                  /\ t = TransferPost(s, e.args.owner, e.args.newOwner, amt)
+           \* a message of another module, whoever its recipients are and whether or not the chain accepts it,
+           \* is not a DAO message: the books stay as they are (MsgFund is the only way in, there is no way
+           \* out).  The accounts' liquid balances are the other module's business, P does not constrain them.
+           [] e.ev \in ForeignEvs -> Ledger(t) = Ledger(s)
            [] OTHER -> FALSE
+
+\* a finer name for some ways of failing StepOK (appended to the violation kind)
+StepFault(e, s, t) ==
+    IF e.ok /\ e.ev = "transfer_ratio" /\ e.args.owner # e.args.newOwner
+    THEN LET amt == MovedFromOwner(s, t, e.args.owner) IN
+         IF t = TransferPost(s, e.args.owner, e.args.newOwner, amt) /\ RatioBand(s, e.args.owner, e.args.ratio, amt)
+            /\ ~RatioNotMore(s, e.args.owner, e.args.ratio, amt)
+         THEN ":moved-more-than-stated" ELSE ""
+    ELSE ""
 
 \* the class of a step, used to identify a violation
 StepClass(e) ==
     IF e.ev \in {"transfer_all", "transfer_amount", "transfer_ratio", "transfer_dup"}
     THEN (IF e.args.owner = e.args.newOwner THEN "owner=newOwner" ELSE "owner#newOwner")
+    ELSE IF e.ev = "bank_send" THEN (IF e.args.to = DaoAcct THEN "to=dao" ELSE "to=acct")
+    ELSE IF e.ev = "bank_multisend"
+    THEN (IF \E i \in DOMAIN e.args.outs : e.args.outs[i].to = DaoAcct THEN "to=dao" ELSE "to=acct")
     ELSE "-"
 
 ---------------------------------------------------------------------------
@@ -170,6 +211,21 @@ MTransfer(s, o, n, amt) ==
 \* M as a function: the outcome [ok, post, moved] the code produces for message (ev, args) in
 \* state s.  `moved` is what a transfer moved (used for the ghost variable only).
 NoCoins(s) == [d \in DenomsOf(s) |-> "0"]
+\* bank transfer from one account to a list of recipients: refused if a recipient is blocked (the DAO
+\* module account), if an output is empty, or if the sender cannot pay the sum; otherwise only liquid
+\* balances move
+OutSum(outs, d, S) == SumOver({i \in DOMAIN outs : outs[i].to \in S}, LAMBDA i : outs[i].coins[d])
+MBank(s, from, outs) ==
+    LET all == {outs[i].to : i \in DOMAIN outs}
+        ok == /\ \A i \in DOMAIN outs : AnyNonZero(outs[i].coins)
+              /\ "dao_not_blocked" \in Defects \/ \A i \in DOMAIN outs : outs[i].to # DaoAcct
+              /\ \A d \in DenomsOf(s) : BigLE(OutSum(outs, d, all), s.bank[from][d])
+        paid == [s.bank EXCEPT ![from] = [d \in DOMAIN @ |-> BigSub(@[d], OutSum(outs, d, all))]]
+        \* (reached with a recipient DaoAcct only under the hypothetical "dao_not_blocked": what the chain would do
+        \* if the DAO module account were missing from the blocked list - the coins land in the module account)
+        post == [s EXCEPT !.bank = [a \in DOMAIN paid |-> [d \in DOMAIN paid[a] |-> BigAdd(paid[a][d], OutSum(outs, d, {a}))]],
+                          !.bankMod = [d \in DOMAIN @ |-> BigAdd(@[d], OutSum(outs, d, {DaoAcct}))]]
+    IN [ok |-> ok, post |-> IF ok THEN post ELSE s, moved |-> NoCoins(s)]
 MResult(s, ev, args) ==
     CASE ev = "fund" ->
            LET a == args.acct  c == args.coins
@@ -198,6 +254,11 @@ MResult(s, ev, args) ==
       [] ev = "reimport" -> [ok |-> TRUE, post |-> s, moved |-> NoCoins(s)]
       \* duplicate denominations make the coin set invalid: ValidateBasic refuses
       [] ev = "transfer_dup" -> [ok |-> FALSE, post |-> s, moved |-> NoCoins(s)]
+      \* x/bank (haqq's wrapper of the message server): every module account is on the blocked list
+      [] ev = "bank_send" ->
+           MBank(s, args.from, <<[to |-> args.to, coins |-> args.coins]>>)
+      \* one input (the sum of the outputs, built by the driver), any number of outputs
+      [] ev = "bank_multisend" -> MBank(s, args.from, args.outs)
 
 IsSelfTransfer(ev, args) ==
     ev \in {"transfer_all", "transfer_amount", "transfer_ratio", "transfer_dup"} /\ args.owner = args.newOwner
@@ -210,6 +271,9 @@ Do(ev, args) ==
                   THEN [d \in AllDenoms |-> BigAdd(leaked[d], r.moved[d])] ELSE leaked
 
 CoinChoices == [AllDenoms -> Amts]
+\* foreign messages: recipients include the DAO module account; one denomination per output
+Recipients == Accts \cup {DaoAcct}
+BankCoinChoices == {[d \in AllDenoms |-> IF d = x THEN v ELSE "0"] : x \in AllDenoms, v \in BankAmts}
 
 Fund(a, c)                == Do("fund", [acct |-> a, coins |-> c])
 TransferAll(o, n)         == Do("transfer_all", [owner |-> o, newOwner |-> n])
@@ -217,6 +281,8 @@ TransferAmount(o, n, amt) == AnyNonZero(amt) /\ Do("transfer_amount", [owner |->
 TransferRatio(o, n, r)    == Do("transfer_ratio", [owner |-> o, newOwner |-> n, ratio |-> r])
 SetEnabled(b)             == Do("set_enabled", [enabled |-> b])
 Reimport(b)               == Do("reimport", [declared |-> b])
+BankSend(f, t, c)         == Do("bank_send", [from |-> f, to |-> t, coins |-> c])
+BankMultiSend(f, outs)    == Do("bank_multisend", [from |-> f, outs |-> outs])
 TransferDup(o, n, d, x)   == Do("transfer_dup", [owner |-> o, newOwner |-> n, denom |-> d, amt |-> x, times |-> 2])
 
 Next ==
@@ -228,6 +294,11 @@ Next ==
        \/ \E b \in BOOLEAN : b # st.enabled /\ SetEnabled(b)
        \/ \E b \in BOOLEAN : Reimport(b)
        \/ \E o \in Accts, n \in Accts, d \in Denoms, x \in Amts \ {"0"} : TransferDup(o, n, d, x)
+       \/ /\ "bank_send" \in Foreign
+          /\ \E f \in Accts, t \in Recipients, c \in BankCoinChoices : BankSend(f, t, c)
+       \/ /\ "bank_multisend" \in Foreign
+          /\ \E f \in Accts, t1 \in Recipients, t2 \in Recipients, c1 \in BankCoinChoices, c2 \in BankCoinChoices :
+                BankMultiSend(f, <<[to |-> t1, coins |-> c1], [to |-> t2, coins |-> c2]>>)
 
 Spec == Init /\ [][Next]_vars
 
@@ -263,6 +334,8 @@ RandCoins(h) == [d \in AllDenoms |-> IF d \in BadDenoms /\ RandomElement(1..4) #
 RandOther(o) == IF RandomElement(1..4) = 1 THEN o ELSE RandomElement(Accts)
 RandOwner(h) == LET hs == {a \in Accts : st.holders[a]} IN
                 IF hs # {} /\ RandomElement(1..5) # 1 THEN RandomElement(hs) ELSE RandomElement(Accts)
+RandRecipient(h) == IF RandomElement(1..3) = 1 THEN DaoAcct ELSE RandomElement(Accts)
+RandBankCoins(h) == [d \in AllDenoms |-> IF RandomElement(1..3) = 1 THEN RandomElement({"1", "2"}) ELSE "0"]
 SimNext ==
     /\ Len(hist) < MaxLen
     /\ \/ Fund(RandomElement(Accts), RandCoins(hist))
@@ -274,6 +347,9 @@ SimNext ==
        \/ ((IF st.enabled THEN RandomElement(1..6) = 1 ELSE TRUE) /\ SetEnabled(~st.enabled))
        \/ (RandomElement(1..3) = 1 /\ Reimport(RandomElement(BOOLEAN)))
        \/ (RandomElement(1..3) = 1 /\ LET o == RandOwner(hist) IN TransferDup(o, RandOther(o), RandomElement(Denoms), RandomElement(Amts \ {"0"})))
+       \/ (RandomElement(1..2) = 1 /\ BankSend(RandomElement(Accts), RandRecipient(hist), RandCoins(hist)))
+       \/ BankMultiSend(RandomElement(Accts),
+              [i \in 1..RandomElement(1..3) |-> [to |-> RandRecipient(i), coins |-> RandBankCoins(i)]])
 SimSpec == Init /\ [][SimNext \/ Emit]_vars
 
 View == <<st, leaked, Len(hist)>>
